@@ -20,10 +20,10 @@ CLAIMED = {
             NOTE + "A5 (ifft(fft(u)) = u, single-mode spectrum) assumed.", "4/C04"),
     "C05": ("derivative, Laplace and gradient-inner-product operators, and the Poisson solver (constructor, step_fourier, step, __call__) are proved equal to their documented symbols for all N, L, D, orders 0-8; lemma: Lap_hat u_hat = -f_hat off the mean mode, u_hat = 0 at it; (i kappa)^n is the analytic symbol.",
             NOTE + "A5 for the physical-space reading.", "4/C05"),
-    "C10": ("Leray (constructor, __call__), make_incompressible, _cross_product_3d, ProjectedConvection3d(+Kolmogorov) and the 3D velocity steppers are under contract; lemma (per mode, all kappa): d.P(u)=0, P(P u)=P u, d.u=0 => P u=u, independence of L, and stage updates with channel-independent coefficients preserve d.u=0.",
-            NOTE + "A5 (Nyquist-free fields) for the physical-space routines.", "4/C10"),
-    "C11": ("From the C01 contracts (exp(dt sigma_doc) stored per mode): Re sigma_doc <= 0 under the documented sign conditions, |exp(dt sigma)|^2 <= 1 (=1 for advection/dispersion, <1 off the mean for positive diffusivity), wave propagator is a rotation of the travelling-wave amplitudes.",
-            NOTE + "Parseval and 'irfftn discards the non-Hermitian part' (A5) assumed.", "4/C11"),
+    "C10": ("DIRECT checks (contracts/direct.py: the property's own clauses as post-conditions on the real code, whole call tree executed, no documented formula involved): with the derivative operator the real build_derivative_operator returns, Leray.__call__ has zero spectral divergence at every mode, is idempotent and leaves zero-divergence modes unchanged; make_incompressible(u) == irfftn(Leray_L(rfftn u)) for every L (the two routines agree); ProjectedConvection3d.__call__ and the velocity steppers' own nonlinear terms (Kolmogorov forcing included) are divergence-free for every input; every ETDRK order 1-4 satisfies div(step(u)) = propagator*div(u) per mode for arbitrary per-mode coefficients (hence zero divergence is preserved over any number of steps); the 3D velocity steppers have a one-channel linear operator. Spec-level lemma kept as documentation.",
+            NOTE + "A5 (Nyquist-free fields / Hermitian-consistent spectra) links the spectral statements to the physical-space fields. The verdict does not depend on the 'equals the documented formula' contracts, so a change that alters documented values but keeps the field divergence-free does not alarm here.", "10.12/C10"),
+    "C11": ("DIRECT checks (contracts/direct.py, whole call tree executed): for the object the real constructor returns -- Advection, Dispersion (both mixing flags): |propagator|^2 == 1 at every mode; Diffusion (scalar, per-axis, 2x2 PSD matrix), AdvectionDiffusion, HyperDiffusion (both flags), General/Normalized/DifficultyLinearStepper with dissipative signs: |propagator|^2 <= 1, and < 1 off the mean for positive (hyper-)diffusivity; ETDRK0.step_fourier multiplies every mode by the propagator (|out| = |E||u|); step_fourier of a constructed stepper does not amplify any mode and step/__call__ are irfftn o step_fourier o rfftn of the same object; the wave stepper's step_fourier conserves |v|^2 + (c|kappa|)^2 |h|^2 per mode. All for every N, L, dt > 0, coefficient value, D in {1,2,3}.",
+            NOTE + "Parseval for rfftn/irfftn and 'irfftn discards the non-Hermitian part' (A5) carry the per-mode statement to the physical L2 norm. The verdict does not depend on the documented symbols: a change that alters the symbol but never amplifies does not alarm here (it fails C01's check).", "10.12/C11"),
     "C12": ("The Kolmogorov injections (2D vorticity, 3D velocity), their __call__, the stepper constructors passing mode/scale, GeneralVorticityConvectionStepper's both branches and ForcedStepper.step/step_fourier/__call__ are proved equal to the documented forcing / forcing split.",
             NOTE + "A5 (spectrum of a single cosine/sine) is how the documented physical-space forcing is stated in Fourier space.", "4/C12"),
     "C13": ("Constructors of the general/normalized/difficulty families are proved to build the same ETDRK object as the generic stepper with the documented converted coefficients; lemmas: conversions are mutual inverses, dt*sigma_generic(L;a) = sigma_generic(1;alpha), specific symbols equal generic symbols with the overview's coefficient lists.",
@@ -43,7 +43,7 @@ CLAIMED = {
     "C18": ("Every public generator and function form of exponax.ic is under contract: validate_normalization_options, normalize_ic, WhiteNoise, RandomTruncatedFourierSeries, GaussianRandomField, DiffusedNoise, the clamping / scaling / multi-channel wrappers (sampled and function form), Discontinuity / Discontinuities / RandomDiscontinuities, GaussianBlob / GaussianBlobs / RandomGaussianBlobs, SineWaves1d / RandomSineWaves1d, BaseRandomICGenerator.__call__ (sampled form = function form on the generator's grid), build_ic_set (unrolled for 1-3 samples: bounded in the sample count) -- each proved equal to its documented construction (shape (1,N..N), cutoff mask, mean coefficient offset*N^D, power-law shaping with untouched mean, affine clamping, normalisation order, key-splitting chains), as deterministic terms in the abstract draws of the key; lemma: zero mean after mean removal, clamping end points.",
             NOTE + "jax.random draws are abstract functions of the key; MAX/MIN aggregate facts (A6) assumed; finiteness is floating point (not expressible).", "4/C18"),
     "C20": ("raises-contracts: __call__ of BaseStepper / RepeatedStepper / Poisson rejects exactly the mis-shaped states (symbolic wrong channel count, wrong axis length, rank +-1); dimension guards of the NS classes and nonlinear terms, parity guards of the operators, option guards (scaling mode, scale_list length, ifft in 1D, order not in 0..4).",
-            NOTE + "pure shape / integer reasoning.", "4/C20"),
+            NOTE + "pure shape / integer reasoning. Of the obligations in the cone only those ABOUT rejections count for this property (the `raises` obligations, the vacuity guards and the shape / rank / type clauses of `ensures`); value obligations in the same contracts are excluded (reported as obligations_in_the_cone_not_about_this_property), so a change that only alters returned values does not alarm here.", "4/C20"),
 }
 NA = {
     "C06": "quantifies over JAX program transformations (jit/vmap/filter_vmap of constructors); no contract on an exponax function can express it short of assuming it (DESIGN 5)",
@@ -79,7 +79,7 @@ def build(all_ids):
         "engines": [{"name": "symjnp", "path": "symjnp/", "serves_properties": sorted(CLAIMED),
                      "kind_free_text": "forward symbolic executor of the real exponax function objects under a jax.numpy contract shim (index-lambda arrays over z3 terms), callee-by-contract stubs, scan invariants, VCs discharged by z3 with a ring / exponential-polynomial normaliser front end; native replay of counterexamples on real jax"}],
         "checks": checks,
-        "notes": "All checks rebuild everything from /repo's working tree (VERIF_REPO overrides for scratch copies). Exit codes: 0 held, 1 violation, 2 undecided, 3 tool failure. quick = all contract obligations and lemmas of the property's cone (unbounded proofs); thorough = quick + a BOUNDED native conformance sweep (5 concrete configurations per contract case on the real jax, float64, against the numerically evaluated spec; reported under coverage.bounded_conformance_sweep, never counted as discharged) + lean re-check of lemmas/Axioms.lean (the exp/cos/sin/sqrt/pi schemes the solver uses). Results of shared (contract, case) items are cached under .cache/<hash of /repo/exponax and of the verifier sources>.",
+        "notes": "Every check's cone is closed under callees (a contract used as a stub in a proof is itself verified in the same check). Attribution: C01-C05, C12, C14-C18 state 'equals the documented formula' and are decided by exactly those contracts; C10, C11 are decided by direct checks of their own statement on the real code and C20 by the rejection/shape obligations only; C08, C09, C13 are derived properties decided through the documented-formula contracts (sound: nothing that breaks them passes; not sharp: a change that breaks the documented formula but happens to keep the symmetry / conservation / equivalence still alarms -- DESIGN 10.12). All checks rebuild everything from /repo's working tree (VERIF_REPO overrides for scratch copies). Exit codes: 0 held, 1 violation, 2 undecided, 3 tool failure. quick = all contract obligations and lemmas of the property's cone (unbounded proofs); thorough = quick + a BOUNDED native conformance sweep (5 concrete configurations per contract case on the real jax, float64, against the numerically evaluated spec; reported under coverage.bounded_conformance_sweep, never counted as discharged) + lean re-check of lemmas/Axioms.lean (the exp/cos/sin/sqrt/pi schemes the solver uses). Results of shared (contract, case) items are cached under .cache/<hash of /repo/exponax and of the verifier sources>.",
         "not_applicable": sorted(na, key=lambda d: d["property_id"]),
     }
 
